@@ -498,7 +498,8 @@ def run(ctx, col: Collector):
 
     # ---------------------------------------------------------------- C05-wiring
     def wiring():
-        pb = idx.func(PARSER, 'PyDBMLParser.parse_blueprint')
+        from ..inline import inlined_info
+        pb = inlined_info(idx, idx.func(PARSER, 'PyDBMLParser.parse_blueprint'))
         bp_param = None
         # blueprint classes that read self.parser in build / helpers
         needs: Set[str] = set()
@@ -529,15 +530,21 @@ def run(ctx, col: Collector):
         def loop_sets(src_pred) -> bool:
             for n in ast.walk(pb.node):
                 if isinstance(n, ast.For):
-                    src = origin(n.iter, pb.node) if isinstance(n.iter, ast.Name) else ('expr', norm(n.iter))
+                    from .common import resolve_names, value_sources
+                    src = ('expr', resolve_names(pb.node, n.iter))
+                    if isinstance(n.iter, ast.Name):
+                        vs = value_sources(pb.node, n.iter.id)
+                        src = ('expr', ' | '.join(resolve_names(pb.node, v) for v in vs) if vs else src[1])
                     if src_pred(src[1]):
                         tv = norm(n.target)
                         for s in n.body:
                             if isinstance(s, ast.Assign) and norm(s.targets[0]) == f'{tv}.parser' and norm(s.value) == 'self':
                                 return True
             return False
+        from .common import resolve_names as _rn
+        var_res = _rn(pb.node, ast.parse(var, mode='eval').body)
         if 'ColumnBlueprint' in needs:
-            col.check(loop_sets(lambda s: f'{var}.columns' in s), 'C05-wiring', 'parse_blueprint:columns.parser',
+            col.check(loop_sets(lambda s: f'{var}.columns' in s or f'{var_res}.columns' in s), 'C05-wiring', 'parse_blueprint:columns.parser',
                       'every column blueprint of a table gets .parser = self',
                       'parse_blueprint does not set .parser on the column blueprints: ColumnBlueprint.build silently skips enum resolution '
                       '(`if self.parser:`), so enum-typed columns keep a string type', node=pb.node, file=pb.file)
@@ -584,43 +591,47 @@ def key_holder_dispatch(ctx, col: Collector, rule: str):
     p = [a.arg for a in fi.node.args.args][0]
     consts = const_names(ctx)
     holders = holder_sides(ctx)
-    loops = [n for n in ast.walk(fi.node) if isinstance(n, ast.For) and norm(n.iter) == f'{p}.database.refs']
-    if len(loops) != 1:
-        raise Unrecognised('get_references_for_sql does not scan model.database.refs in one loop', fi.node)
-    rv = norm(loops[0].target)
+    # clauses under which a reference of model.database.refs is selected: (test expression, loop variable)
+    clauses: List[Tuple[ast.AST, str]] = []
+    for n in ast.walk(fi.node):
+        if isinstance(n, ast.For) and norm(n.iter) == f'{p}.database.refs':
+            rv = norm(n.target)
+            for x in ast.walk(n):
+                if isinstance(x, ast.If) and any(isinstance(c, ast.Call) and isinstance(c.func, ast.Attribute) and c.func.attr == 'append' and c.args and norm(c.args[0]) == rv
+                                                 for b in x.body for c in ast.walk(b)):
+                    clauses.append((x.test, rv))
+        if isinstance(n, (ast.ListComp, ast.GeneratorExp)) and len(n.generators) == 1 and norm(n.generators[0].iter) == f'{p}.database.refs' \
+                and norm(n.elt) == norm(n.generators[0].target):
+            rv = norm(n.generators[0].target)
+            for cnd in n.generators[0].ifs:
+                parts = cnd.values if isinstance(cnd, ast.BoolOp) and isinstance(cnd.op, ast.Or) else [cnd]
+                for part in parts:
+                    clauses.append((part, rv))
+    if not clauses:
+        raise Unrecognised('get_references_for_sql does not select from model.database.refs in a recognised form', fi.node)
     seen: Dict[str, List[str]] = {}
-    for n in ast.walk(loops[0]):
-        if isinstance(n, ast.If):
-            ks = kinds_of_test(n.test, rv)
-            if ks is None:
-                # parenthesised form: (ref.type in (...)) and (ref.table1 == model)
-                conj = n.test.values if isinstance(n.test, ast.BoolOp) and isinstance(n.test.op, ast.And) else [n.test]
-                for c in conj:
-                    ks = ks or kinds_of_test(c, rv)
-            if not ks:
-                continue
-            conj = n.test.values if isinstance(n.test, ast.BoolOp) and isinstance(n.test.op, ast.And) else [n.test]
-            side = None
-            how = ''
-            for c in conj:
-                s = norm(c).replace(' ', '').strip('()')
-                for sd in ('1', '2'):
-                    if s in (f'{rv}.table{sd}=={p}', f'{p}=={rv}.table{sd}', f'{rv}.table{sd}is{p}', f'{p}is{rv}.table{sd}'):
-                        side, how = sd, 'object'
-                    elif f'{rv}.table{sd}' in s and p in s and side is None:
-                        side, how = sd, f'`{norm(c)}`'
-            appends = any(isinstance(x, ast.Call) and isinstance(x.func, ast.Attribute) and x.func.attr == 'append' and norm(x.args[0]) == rv
-                          for s in n.body for x in ast.walk(s))
-            if not appends:
-                continue
-            for k in ks:
-                seen.setdefault(k, []).append(side or '?')
-                col.check(how == 'object', rule, f'get_references_for_sql:{k}:compares-tables',
-                          f'`{consts.get(k, k)}`: the rendered table is compared with ref.table{side} as an object',
-                          f'for `{consts.get(k, k)}` references get_references_for_sql decides ownership with {how or "a test that is not `ref.table<N> == <table>`"} instead of comparing the '
-                          f'table objects: tables that share a name (in different schemas) both claim the reference', node=n, file=fi.file)
-    if not seen:
-        raise Unrecognised('no `if ref.type ... and ref.tableN == model: result.append(ref)` branch recognised', fi.node)
+    for test, rv in clauses:
+        conj = test.values if isinstance(test, ast.BoolOp) and isinstance(test.op, ast.And) else [test]
+        ks = None
+        for c in conj:
+            ks = ks or kinds_of_test(c, rv)
+        if not ks:
+            raise Unrecognised(f'selection clause `{norm(test)[:60]}` does not test the reference kind', test)
+        side = None
+        how = ''
+        for c in conj:
+            t = term(c, True)
+            for sd in ('1', '2'):
+                if t in (('eq', *sorted((f'{rv}.table{sd}', p))), ('is', *sorted((f'{rv}.table{sd}', p)))):
+                    side, how = sd, 'object'
+                elif f'{rv}.table{sd}' in norm(c) and p in norm(c) and side is None:
+                    side, how = sd, f'`{norm(c)}`'
+        for k in ks:
+            seen.setdefault(k, []).append(side or '?')
+            col.check(how == 'object', rule, f'get_references_for_sql:{k}:compares-tables',
+                      f'`{consts.get(k, k)}`: the rendered table is compared with ref.table{side} as an object',
+                      f'for `{consts.get(k, k)}` references get_references_for_sql decides ownership with {how or "a test that is not `ref.table<N> == <table>`"} instead of comparing the '
+                      f'table objects: tables that share a name (in different schemas) both claim the reference', node=test, file=fi.file)
     for k, hside in sorted(holders.items()):
         got = seen.get(k, [])
         col.check(got == [hside], rule, f'get_references_for_sql:{k}:key-holder',
